@@ -14,6 +14,13 @@ SIMPLE = ["INTEGER", "REAL", "NUMBER", "BOOLEAN", "LOGICAL", "STRING", "BINARY"]
 NAMES = ["alpha", "beta", "gamma", "delta", "omega", "kappa", "sigma", "theta", "lambda_", "mu", "nu", "xi", "rho", "tau", "phi", "chi", "psi", "zeta"]
 
 
+# string literals with multi-byte UTF-8 characters (texts are handled as latin-1 views of the file's bytes): how many *columns* such a
+# literal takes depends on who counts - nothing a tool writes may depend on the locale it runs in
+U8_A = "'" + "Größe und Länge der Brücke über die Straße".encode("utf-8").decode("latin-1") + "'"
+U8_B = "'" + "日本語のラベルをここに書きます".encode("utf-8").decode("latin-1") + "'"
+U8_C = "'" + "Überprüfung der Übereinstimmung: naïve façade, Ærøskøbing, Łódź".encode("utf-8").decode("latin-1") + "'"
+
+
 class Gen:
     def __init__(self, r, name="algo", tag=""):
         self.r = r
@@ -102,7 +109,7 @@ class Gen:
         if kind == "log":
             return r.choice(["TRUE", "FALSE", "UNKNOWN"])
         if kind == "str":
-            return r.choice(["''", "'a'", "'it''s'", "'%s'" % ("x" * r.choice([3, 40, 200])), "'A_B.C'", "'\\\\'", '"00000041"', "'(*not a remark*)'", "'--x'"])
+            return r.choice(["''", "'a'", "'it''s'", "'%s'" % ("x" * r.choice([3, 40, 200])), "'A_B.C'", "'\\\\'", '"00000041"', "'(*not a remark*)'", "'--x'", U8_A, U8_B, U8_C])
         if kind == "bin":
             return "%" + "".join(r.choice("01") for _ in range(r.choice([1, 4, 9, 64])))
         if kind == "enum" and self.enums:
@@ -325,7 +332,14 @@ class Gen:
             n = self.fresh("e")
             items = [self.fresh("it") for _ in range(r.randint(1, 5))]
             self.enums.append((n, items))
-            L += ["TYPE %s = ENUMERATION OF (%s);" % (n, ", ".join(items)), "END_TYPE;", ""]
+            L.append("TYPE %s = ENUMERATION OF (%s);" % (n, ", ".join(items)))
+            if r.random() < 0.4:
+                # domain rules on a constructed type: the rule labels live in the type's own scope, next to its items
+                L.append("WHERE")
+                for k in range(r.randint(1, 2)):
+                    lab = "wr%d : " % k if r.random() < 0.8 else ""
+                    L.append("  %s%s;" % (lab, r.choice(["SELF <> %s" % r.choice(items), "SELF IN [%s]" % ", ".join(items), "EXISTS(SELF)"])))
+            L += ["END_TYPE;", ""]
         for _ in range(r.randint(1, 3)):
             n = self.fresh("t")
             u = r.choice(SIMPLE)
@@ -352,7 +366,10 @@ class Gen:
             n = self.fresh("s")
             mem = [e["name"] for e in r.sample(self.entities, min(len(self.entities), r.randint(1, 2)))] + [d[0] for d in self.deftypes[:r.randint(0, 2)]]
             self.selects.append((n, mem))
-            L += ["TYPE %s = SELECT (%s);" % (n, ", ".join(mem)), "END_TYPE;", ""]
+            L.append("TYPE %s = SELECT (%s);" % (n, ", ".join(mem)))
+            if r.random() < 0.3:
+                L += ["WHERE", "  %sEXISTS(SELF) OR (SIZEOF(TYPEOF(SELF)) > 0);" % ("wrs : " if r.random() < 0.8 else "")]
+            L += ["END_TYPE;", ""]
         # functions and procedures are declared before use in expressions of entities: signatures first
         for _ in range(r.randint(1, 3)):
             self.funcs.append((self.fresh("f"), [r.choice(SIMPLE[:6]) for _ in range(r.randint(0, 3))], r.choice(SIMPLE[:6])))
